@@ -173,9 +173,19 @@ def cross_events(case):
 
 def run_legalenc(ctx, schema, msgs, params, export, timeout=1500, invariants=("DecoderInsensitive", "CanonicalRoundTrip", "PrefixWellFormed", "SizeAgrees")):
     """TLC on spec/MC_Codec.tla over a pool of messages, 16 single-worker shards; returns exported terminal encodings"""
-    nsh = common.NCPU
-    shards = [msgs[i::nsh] for i in range(nsh)]
-    shards = [s for s in shards if s]
+    # cost-balanced: the state space of a message grows with the number of its atoms (list items, map entries, set fields);
+    # heavy messages get a TLC process of their own with several workers and start first, light ones share single-worker processes
+    def atoms(m):
+        n = 0
+        for v in m["val"].values():
+            n += len(v["xs"]) if v.get("k") == "list" else 2 * len(v["es"]) if v.get("k") == "map" else 0 if v.get("k") == "unset" else 1
+        return n
+    order = sorted(range(len(msgs)), key=lambda i: -atoms(msgs[i]))
+    heavy = [i for i in order if atoms(msgs[i]) >= 5][:6]
+    light = [i for i in order if i not in heavy]
+    nl = max(1, common.NCPU - len(heavy))
+    shards = [[msgs[i]] for i in heavy] + [s_ for s_ in ([msgs[i] for i in light[j::nl]] for j in range(nl)) if s_]
+    wk = [4] * len(heavy) + [1] * (len(shards) - len(heavy))
     cfg_text = (MC_CFG % params).replace("Export = TRUE", "Export = " + ("TRUE" if export else "FALSE"))
     cfg_text = "\n".join(l for l in cfg_text.splitlines() if not l.startswith("INVARIANT") or l.split()[1] in invariants) + "\n"
     cfg = common.write_cfg(os.path.join(ctx.work, "MC_Codec_%d.cfg" % len(ctx.mc_runs)), cfg_text)
@@ -183,15 +193,17 @@ def run_legalenc(ctx, schema, msgs, params, export, timeout=1500, invariants=("D
     def one(k):
         p = os.path.join(ctx.work, "pool%d_%d.json" % (len(ctx.mc_runs), k))
         common.dump_json(p, {"schema": schema, "msgs": shards[k], "unknown": [list(u) for u in UNKNOWN]})
-        r = common.tlc("MC_Codec", cfg=cfg, workers=1, env={"POOL_FILE": p}, timeout=timeout, heap="3g")
+        r = common.tlc("MC_Codec", cfg=cfg, workers=wk[k], env={"POOL_FILE": p}, timeout=timeout, heap="3g")
         os.unlink(p)
         return r
-    with cf.ThreadPoolExecutor(max_workers=nsh) as ex:
+    with cf.ThreadPoolExecutor(max_workers=common.NCPU) as ex:
         results = list(ex.map(one, range(len(shards))))
     cases = []
     tot_d = tot_g = 0
     wall = 0
     for k, r in enumerate(results):
+        if os.environ.get("VERIF_TIMING"):
+            print("TIMING legalenc shard", k, len(shards[k]), "msgs", r.distinct, "states", round(r.wall, 1), "s")
         tot_d += r.distinct
         tot_g += r.generated
         wall = max(wall, r.wall)
